@@ -316,7 +316,12 @@ def k4_unknown_form_aborts(core, rep):
     guard = None
     for n in g.nodes:
         if n.kind == 'stmt' and isinstance(n.ast, ast.Raise) and isinstance(n.ast.exc, ast.Call) and call_name(n.ast.exc) == 'NotImplementedError':
-            facts = g.branch_facts(n)
+            # a local that is assigned once stands for the test it holds (`known = form_name in self._form_map`)
+            once = {}
+            for x in ast.walk(f.node):
+                if isinstance(x, ast.Assign) and len(x.targets) == 1 and isinstance(x.targets[0], ast.Name):
+                    once.setdefault(x.targets[0].id, []).append(x.value)
+            facts = [(unparse(once[txt][0]) if txt in once and len(once[txt]) == 1 else txt, pol) for txt, pol in g.branch_facts(n)]
             if any(pol is True and ' not in self.' in txt for txt, pol in facts) or any(pol is False and ' in self.' in txt and ' not in ' not in txt for txt, pol in facts):
                 guard = n
     if not rep.ob('K4', 'raises-on-unknown-form', guard is not None, '_add_form() no longer raises NotImplementedError for a form name missing from the form map', _w(f)):
